@@ -93,6 +93,28 @@ func udpip(src, dst uint32, sport, dport uint16, proto byte, ttl byte, payload [
 	return p
 }
 
+// ipDress rewrites the IPv4 header of a packet built by udpip: type of service, identification, flags / fragment offset,
+// time to live, header options (a multiple of 4 octets, at most 40) - none of which a DHCP server has any business with -
+// and optionally a zero UDP checksum ("not computed").
+func ipDress(p []byte, tos byte, id, frag uint16, ttl byte, opts []byte, zeroUDPSum bool) []byte {
+	u := append([]byte{}, p[20:]...)
+	if zeroUDPSum {
+		u[6], u[7] = 0, 0
+	}
+	h := make([]byte, 20+len(opts))
+	copy(h, p[:20])
+	copy(h[20:], opts)
+	h[0] = 0x40 | byte(len(h)/4)
+	h[1] = tos
+	binary.BigEndian.PutUint16(h[2:], uint16(len(h)+len(u)))
+	binary.BigEndian.PutUint16(h[4:], id)
+	binary.BigEndian.PutUint16(h[6:], frag)
+	h[8] = ttl
+	h[10], h[11] = 0, 0
+	binary.BigEndian.PutUint16(h[10:], ^wfold(wsum16(h, 0)))
+	return append(h, u...)
+}
+
 type wreply struct {
 	ok             bool
 	src, dst       uint32
